@@ -59,6 +59,9 @@ EntryOfG(j, h, g) ==
      meta |-> "ok",
      errors |-> IF ~(RendersErrors \/ m.meta = "schemas") THEN {}       \* an explicit result schema is always combined with the method's errors
                 ELSE SetOf(IF ref = 0 THEN <<>> ELSE h[ref]) \cup (IF ReadsDocstrings THEN SetOf(DocRaises[f]) ELSE {}),
+     \* the texts shown next to the error codes are those of the error classes the method itself lists / names in its docstring
+     \* (another class may carry the same code: an "own" list names E2001own, the shared list E2001 - both code 2001)
+     errtext |-> "own",
      tags |-> m.tags,
      \* the request schema (if one is produced) names the method it belongs to
      reqname |-> IF scn.kind # "openrpc" /\ (scn.extractor \in {"pyd", "doc+pyd"} \/ m.meta = "schemas") THEN "own" ELSE "na",
